@@ -100,6 +100,26 @@ def _gen_follow(rng, n):
         yield f"c04.follow 1048576 {hexs(pre)} W{hexs(before[:k])},W{hexs(before[k:])},M,W{hexs(after)},P"
 
 
+def _gen_crlf(rng, n):
+    """DOS-style and other carriage returns: a followed line is delivered unmodified, its '\r' included — whole "\r\n" lines, a
+    '\r' split from its '\n' by a write boundary (with and without a poll in between), bare '\r' inside a line"""
+    yield "c04.tail 1048576 100 - - W646f73206c696e650d0a,W0d0a,P,W706c61696e0a,W73706c69740d,P,W0a,W610d620d0a,P"
+    for _ in range(n):
+        words = [b"dos %d\r", b"\r", b"mid\rdle %d", b"plain %d", b"two\r\r", b"caf\xc3\xa9 %d\r"]
+        data = b"".join((w % k if b"%d" in w else w) + b"\n" for k, w in ((k, rng.choice(words)) for k in range(rng.choice([3, 8, 20]))))
+        steps, pos = [], 0
+        while pos < len(data):
+            k = rng.choice([1, 2, 5, 9, 40])
+            steps.append("W" + hexs(data[pos:pos + k]))
+            pos += k
+            if rng.random() < 0.25:
+                steps.append("P")
+        steps.append("P")
+        regex = rng.choice(["-", "-", hexs(b"d"), hexs(b"\\r$")])
+        pre = rng.choice([b"", b"old\r\n"])
+        yield "c04.tail %d 100 %s %s %s" % (rng.choice([1048576, 16]), regex, hexs(pre), ",".join(steps))
+
+
 def gen(rng, budget, tier):
     # tie G: the translated stats.go / transmittable and the real functions on the same scripts
     from props import gen_tie
@@ -107,3 +127,5 @@ def gen(rng, budget, tier):
     yield from _gen_hand(rng, budget, tier)
     yield "c04.follow 1048576 - W6e657720310a6e657720320a,P,W6e657720330a"
     yield from _gen_follow(rng, 2 if tier == "quick" else 32)
+    # added last (seeded round 6): carriage returns in followed files
+    yield from _gen_crlf(rng, 6 if tier == "quick" else 150)
